@@ -13,7 +13,7 @@ From Coq Require Import ZArith NArith List Bool String.
 From AGH Require Import Base.Run Model.QLogFile Model.QLog Model.QLogCodec Proofs.QLog Proofs.QLogCursor Proofs.QLogCodec
   Proofs.QLogCodecScan Proofs.QLogCodecDec Proofs.QLogCodecLoc Proofs.QLogFold Proofs.QLogCodecAll
   Model.QLogServe Proofs.QLogServe Model.QLogRotate Proofs.QLogRotate Model.QLogClients Proofs.QLogClients
-  Proofs.QLogOrder.
+  Proofs.QLogOrder Proofs.QLogParams.
 From AGH Require Model.ClientIndex Proofs.ClientIndex.
 Import ListNotations.
 Local Open Scope Z_scope.
@@ -854,3 +854,54 @@ Theorem C07_cursor_pages_never_repeat_any_push_order : forall me bf s p fuel c p
   (forall pg, In pg pages -> forall y, In y pg -> older_b c y = true) /\ sep pages.
 Proof. exact chain_sep. Qed.
 Print Assumptions C07_cursor_pages_never_repeat_any_push_order.
+
+(** ** The request parameters and the scan window (round 7; Proofs/QLogParams.v)
+
+    [parse_with scan] is parseSearchParams with the rule that lifts the
+    50000-line cap as a parameter; [parse] / [handle] are the instance the code
+    has now: the cap is lifted for every request that carries a valid offset,
+    zero included ([scan_now]). *)
+Theorem C07_parse_is_parse_with : forall q, parse q = parse_with (scan_now default_scan) q.
+Proof. exact parse_is_parse_with. Qed.
+Print Assumptions C07_parse_is_parse_with.
+
+(** Without a cursor the file part of a search is [collect] over every line
+    of the files, newest first, whatever the scan window. *)
+Theorem C07_search_files_collect : forall me bf s p,
+  0 < me <= bf -> Forall (len_ok me) (on_disk s) -> p_older p = None ->
+  search_files me bf s p =
+    collect (cfg s) p (p_offset p + p_limit p) (map Some (rev (on_disk s))) 0 0 0.
+Proof. exact search_files_collect. Qed.
+Print Assumptions C07_search_files_collect.
+
+(** A request that carries an offset, ZERO INCLUDED, and no cursor returns
+    exactly [limit] entries behind the first [offset] ones of the visible log
+    under its criteria, for every cap and every state: however many lines
+    that do not match lie in front of the matches ... *)
+Theorem C07_offset_paging_explicit_zero : forall me bf cap s q p off,
+  0 < me <= bf -> wf me s -> parse_with (scan_now cap) q = Some p ->
+  q_offset q = Some off -> q_older q = None -> 0 < p_limit p ->
+  exists o, handle_with (scan_now cap) me bf s q =
+              Ok (firstnZ (p_limit p) (skipnZ off (vis s p))) o.
+Proof. exact offset_paging_explicit. Qed.
+Print Assumptions C07_offset_paging_explicit_zero.
+
+(** ... so the pages at offsets 0, limit, 2 limit, ... partition it. *)
+Theorem C07_offset_pages_tile : forall s p off lim, 0 <= off -> 0 <= lim ->
+  firstnZ lim (skipnZ off (vis s p)) ++ skipnZ (off + lim) (vis s p) = skipnZ off (vis s p).
+Proof. exact offset_pages_tile. Qed.
+Print Assumptions C07_offset_pages_tile.
+
+(** REFUTED with the cap kept for an explicit offset 0 (seeded C07-N, the cap
+    as a parameter): cap 2, one matching record behind three newer ones that
+    do not match: offset=0 returns nothing (cursor 30), offset=1 starts behind
+    the match; the code as it is returns it. *)
+Theorem C07_offset_paging_cap_kept_refuted :
+  exists cap s p, wf max_entry_size s /\ buf s = [] /\
+    parse_with (scan_pos cap) (wit_req 0) = Some p /\
+    map e_id (vis s p) = [1%N] /\
+    handle_with (scan_pos cap) max_entry_size buffer_size s (wit_req 0) = Ok [] 30 /\
+    handle_with (scan_pos cap) max_entry_size buffer_size s (wit_req 1) = Ok [] 0 /\
+    handle_with (scan_now cap) max_entry_size buffer_size s (wit_req 0) = Ok [QLogParams.wit_e 1 10 wit_rare] 10.
+Proof. exact offset_paging_cap_kept_refuted. Qed.
+Print Assumptions C07_offset_paging_cap_kept_refuted.
